@@ -65,8 +65,21 @@ pub fn reconcile_aliases(crate_parsed_data: &mut BTreeMap<CrateName, ParsedData>
             .consts
             .sort_by(|a, b| a.id.original.cmp(&b.id.original));
 
-        // put back our import types for file generation.
-        parsed_data.import_types = import_types;
+        // put back our import types for file generation. The references above now use the
+        // serde-renamed names, and so do the type names the imports are matched against, so an
+        // import of a renamed type has to name it the same way.
+        parsed_data.import_types = import_types
+            .into_iter()
+            .map(|mut import| {
+                if let Some(renamed) = serde_renamed
+                    .get(&import.type_name)
+                    .and_then(|name_map| name_map.get(&import.base_crate))
+                {
+                    import.type_name = renamed.clone();
+                }
+                import
+            })
+            .collect();
     }
 }
 
@@ -185,7 +198,8 @@ fn resolve_renamed(
     // is a hash set, so pick the candidate by crate name rather than by iteration order.
     import_types
         .iter()
-        .filter(|i| i.type_name == id)
+        // a glob import (`use other::*`) brings in every type of that crate
+        .filter(|i| i.type_name == id || i.type_name == "*")
         .filter_map(|import_ref| {
             name_map
                 .get(&import_ref.base_crate)
